@@ -18,14 +18,20 @@ pub struct Cfg {
     pub eviction: String,
     pub item_limit: u32,
     pub conn_limit: u32,
+    /// --memory-limit as written on the command line (only matters under the random policy; never reached)
+    #[serde(default)]
+    pub memory_limit: String,
 }
 
-pub const RULE: &str = "configuration product --runtime-type {current-thread, multi-thread} x --threads {1,2,8} x --eviction-policy {none, random with --memory-limit 1GiB} (x --max-item-size {1 KiB.., default} x --connection-limit {1,3} in the thorough tier), each a real memcrsd child process on its own loopback port. Every configuration is driven with the same single-connection programs (4 scripted ones aimed at the eviction-policy layer, delayed flush, counters and CAS, then proptest-generated ones) (all implemented opcodes loud/quiet, unimplemented opcodes, TTL 0 only) in the same order; oracle: the response byte stream of every program is identical to that of the first configuration (CAS included). Per configuration: a set whose body equals the item limit is accepted and limit+1 is answered 0x03; of 12 simultaneous connections exactly `connection-limit` answer a noop (the others stay unanswered over a 300 ms grace); 8 connections x 400 pipelined increments of one counter return 3200 distinct values and leave the exact total; real-time probe: set ttl 2 hits immediately and misses after 3.5 s while a ttl-0 item and a ttl-7 item are still there. evaluations = configurations x programs. non-trivial = a program with at least 10 requests covering at least 6 opcodes";
+pub const RULE: &str = "configuration product --runtime-type {current-thread, multi-thread} x --threads {1,2,8} x --eviction-policy {none, random with a --memory-limit that is never reached, spelled 1GiB / 16Mb / 4GiB / 6GiB / 512mib / 2000MB} (x --max-item-size {1 KiB.., default} x --connection-limit {1,3} in the thorough tier), each a real memcrsd child process on its own loopback port. Every configuration is driven with the same single-connection programs (4 scripted ones aimed at the eviction-policy layer, delayed flush, counters and CAS, then proptest-generated ones) (all implemented opcodes loud/quiet, unimplemented opcodes, TTL 0 only) in the same order; oracle: the response byte stream of every program is identical to that of the first configuration (CAS included). Per configuration: a set whose body equals the item limit is accepted and limit+1 is answered 0x03; of 12 simultaneous connections exactly `connection-limit` answer a noop (the others stay unanswered over a 300 ms grace); 8 connections x 400 pipelined increments of one counter return 3200 distinct values and leave the exact total; real-time probe: set ttl 2 hits immediately and misses after 3.5 s while a ttl-0 item and a ttl-7 item are still there. evaluations = configurations x programs. non-trivial = a program with at least 10 requests covering at least 6 opcodes";
 pub const ASSUME: &[&str] = &[
     "memcrsd is built from /repo's working tree with cargo's dev profile (overflow checks on) into /verif/harness/target/memcrsd-build",
     "the configuration product is enumerated completely for the listed values only; --port varies per configuration by construction",
     "the real-time probe uses wall-clock sleeps of 3.5 s against a 2 s TTL (1.5 s slack either side of the server's one-second ticks)",
 ];
+
+/// the bulk program needs an item limit above 100 KB
+pub static BULK: std::sync::atomic::AtomicBool = std::sync::atomic::AtomicBool::new(true);
 
 struct Proc {
     child: Child,
@@ -76,7 +82,7 @@ fn start(bin: &str, cfg: &Cfg) -> Result<Proc, String> {
         "--threads", &cfg.threads.to_string(),
         "--runtime-type", &cfg.runtime,
         "--eviction-policy", &cfg.eviction,
-        "--memory-limit", "1GiB",
+        "--memory-limit", if cfg.memory_limit.is_empty() { "1GiB" } else { &cfg.memory_limit },
     ]);
     cmd.stdout(Stdio::null()).stderr(Stdio::null()).stdin(Stdio::null());
     let child = cmd.spawn().map_err(|e| format!("spawn memcrsd: {}", e))?;
@@ -147,6 +153,21 @@ fn scripted_programs() -> Vec<PipeCase> {
         PItem::Cmd(c)
     };
     let mut progs: Vec<Vec<PItem>> = vec![];
+    // a few megabytes of fresh keys, then all of them read back: no configuration may have evicted anything
+    // (the configured memory limits are 64 MB and more)
+    {
+        let mut p = vec![];
+        for i in 0..40usize {
+            let key = format!("bulk{}", i).into_bytes();
+            p.push(PItem::Cmd(Cmd::set(&key, &crate::sym::patterned(100_000, i as u8), 3, 0)));
+        }
+        for i in 0..40usize {
+            p.push(PItem::Cmd(Cmd::get(format!("bulk{}", i).as_bytes())));
+        }
+        if crate::props::c20::BULK.load(std::sync::atomic::Ordering::Relaxed) {
+            progs.push(p);
+        }
+    }
     // delayed flush, then deletes and stores of other keys, then reads of the survivors
     progs.push(vec![set(k(0), b"a", 0), set(k(1), b"b", 0), set(k(2), b"10", 0), flush(600), get(k(1)), del(k(0)), set(k(3), b"c", 0), get(k(1)), get(k(2)), get(k(3)), del(k(1)), set(k(0), b"a2", 0), get(k(2)), get(k(0))]);
     // many overwrites and rejected stores of one key, reads of the others
@@ -180,7 +201,9 @@ fn configs(ctx: &Ctx) -> Vec<Cfg> {
         for runtime in ["current-thread", "multi-thread"] {
             for threads in [1u32, 2, 8] {
                 for eviction in ["none", "random"] {
-                    v.push(Cfg { runtime: runtime.into(), threads, eviction: eviction.into(), item_limit, conn_limit });
+                    // different spellings and magnitudes of a limit that is far above what the programs store (~4 MB)
+                    let memory_limit = ["1GiB", "16Mb", "4GiB", "6GiB", "512mib", "2000MB"][(threads as usize + runtime.len() + v.len()) % 6];
+                    v.push(Cfg { runtime: runtime.into(), threads, eviction: eviction.into(), item_limit, conn_limit, memory_limit: memory_limit.into() });
                 }
             }
         }
